@@ -10,7 +10,7 @@ everything under /verif/seeded/<PROP>[-name]/ with a meta.json.
 """
 import json, os, re, shutil, subprocess, sys, time
 
-ENV = dict(os.environ, GOFLAGS="-mod=mod", GOPROXY="off", GOSUMDB="off", GOTOOLCHAIN="local")
+ENV = dict(os.environ, GOFLAGS="-mod=mod", GOPROXY="off", GOSUMDB="off", GOTOOLCHAIN="local", DBUS_SESSION_BUS_ADDRESS="unix:path=/nonexistent/verif-no-session-bus")
 PKGS = ["./entity/...", "./entities/...", "./cache/...", "./repository/...", "./commands/...", "./api/...", "./query/...", "./util/...", "./bridge/gitlab/...", "./bridge/core/...", "./tests/..."]
 
 
